@@ -1,7 +1,7 @@
 INIT MCInit
 NEXT MCNext
 CONSTANTS
-  TLen = 3
+  TLen = 2
   LLen = 3
 INVARIANTS Law
 CHECK_DEADLOCK FALSE
